@@ -351,7 +351,7 @@ def make_data_factory(flavour: str) -> Callable[[str], Any]:
                 rec["name"] = label
             else:
                 d = DictWrapper({"name": label})
-        elif flavour == "keyed":
+        elif flavour in ("keyed", "keyedsub"):
             d = Keyed("key_" + label)
         else:
             raise ValueError(flavour)
@@ -391,6 +391,15 @@ def build(spec: Spec, *, name: str = "T", flavour: str | None = None, tree_cls=N
     kw = {}
     if flavour == "keyed":
         kw["calc_data_id"] = keyed_calc_id
+    elif flavour == "keyedsub":
+        # the other documented way to customise ids: a Tree subclass that *overrides* calc_data_id() (no callback)
+        base_cls = tree_cls
+
+        class KeyedTree(base_cls):
+            def calc_data_id(self, data):
+                return keyed_calc_id(self, data)
+
+        tree_cls = KeyedTree
     tree = tree_cls(name, **kw)
     if mk is None:
         mk = make_data_factory(flavour)
